@@ -554,12 +554,14 @@ def search_c05(ctx):
         if k.get('kind') == 'misnamed-units':
             misn |= set(tuple(x) for x in k['units'])
     reg = {}
+    reg_rows = []
     if cargo_build(ctx, 'fl', ['reg']):
         rc, out = sh(bin_path('reg', False, 'fl'))
         for l in out.splitlines():
             p = l.split(' ')
-            if p[0] == 'unit':
+            if p[0] == 'unit' and len(p) >= 8:
                 reg[(p[1], p[3])] = p[7]
+                reg_rows.append(p)
     prefixes = t['prefixes']
 
     def coef(qi, ui):
@@ -601,11 +603,11 @@ def search_c05(ctx):
 
     table_labels = {(q['module'], u['name']): (u['abbr'], u['sing'], u['plur']) for q in t['quantities'] for u in q['units']} \
         if t['quantities'] and 'abbr' in t['quantities'][0]['units'][0] else {}
-    for pr in list(ctx.problems):
-        if getattr(pr, 'tag', None) != 'registry-dump' or not (pr.line or '').startswith('unit '):
-            continue
-        f = pr.line.split(' ')
-        if len(f) < 7:
+    # the diff report is capped, so when the dump differs anywhere every row the implementation publishes is examined
+    dump_differs = any(getattr(pr, 'tag', None) == 'registry-dump' for pr in ctx.problems)
+    found = 0
+    for f in (reg_rows if dump_differs else []):
+        if len(f) < 7 or found >= 30:
             continue
         module, name = f[1], f[3]
         got = tuple(unhex(x) for x in f[4:7])
@@ -617,6 +619,7 @@ def search_c05(ctx):
                 'unit %s::%s: the run-time registry / Unit trait publishes the labels %r, the declaration says %r' % (module, name, got, want),
                 line='unit %s %s registry=%r declared=%r' % (module, name, got, want), failing_input=True,
                 cmd=bin_path('reg', False, 'fl'), tag='registry-labels'))
+            found += 1
         # the numbers: what `<unit as Conversion<f64>>::coefficient()` / `constant(op)` publish against the exact
         # value of the declaration (correctly rounded by Fraction → float); the sign of a zero is not a value
         if len(f) >= 10 and want is not None and got == want:
@@ -630,7 +633,7 @@ def search_c05(ctx):
                 bad = []
                 for what, h, e in (('coefficient()', f[7], exp_c), ('constant(Sub)', f[8], exp_k), ('constant(Add)', f[9], exp_k)):
                     try:
-                        v = abs(f64(h))
+                        v = f64(h)
                     except (ValueError, _st.error):
                         continue
                     if not (abs(v - e) <= 2.5e-15 * max(abs(e), abs(v))):
@@ -640,6 +643,7 @@ def search_c05(ctx):
                         'property-fails', 'unit %s::%s: %s' % (module, name, '; '.join(bad)),
                         line='unit %s %s published=%s declared coef=%s cons=%s' % (module, name, ' '.join(f[7:10]), decl['coef_exact'], decl.get('cons_exact')),
                         failing_input=True, cmd=bin_path('reg', False, 'fl'), tag='registry-values'))
+                    found += 1
     for m, u in [tuple(x) for x in t.get('compose', {}).get('misnamed', [])]:
         if (m, u) not in misn:
             ctx.problems.append(Problem('property-fails', 'unit %s::%s: its identifier reads as a composition of another dimension than the quantity has' % (m, u),
